@@ -104,13 +104,8 @@ pub mod std {
 pub trait ReadSpec { spec fn yields(&self) -> Option<Seq<u8>>; }
 pub struct Writer<'a> { pub buf: &'a mut BytesMut }
 impl BytesMut {
-    // A-bytes-13: BufMut::writer wraps the buffer; Buf::advance drops the first cnt bytes (panics beyond the length)
+    // A-bytes-13: BufMut::writer wraps the buffer
     pub fn writer(&mut self) -> (r: Writer<'_>) ensures *r.buf == *old(self), *final(r.buf) == *final(self) { Writer { buf: self } }
-    #[verifier::external_body]
-    pub fn advance(&mut self, cnt: usize)
-        requires cnt <= old(self)@.len()
-        ensures final(self)@ == old(self)@.skip(cnt as int), final(self).reserve_bound == old(self).reserve_bound
-    { unimplemented!() }
 }
 // A-bytes-14: &bytes_mut[a..b] is the subrange (panics when out of range)
 impl vstd::std_specs::core::IndexSpecImpl<core::ops::Range<usize>> for BytesMut {
